@@ -203,11 +203,13 @@ class Check:
         if self.errors:
             for e in self.errors:
                 print(f"ANALYSIS-ERROR property={self.pid} {e}")
-            return 2
         if new:
+            # a refuted obligation is a definite finding: it is reported even when other obligations could not be decided
             for p in replay_paths:
                 print(f"VIOLATION property={self.pid} replay={p}")
             return 1
+        if self.errors:
+            return 2
         print(f"OK property={self.pid} obligations={cov['obligations']} discharged={cov['discharged']} known={len(matched)} wall={wall:.2f}s")
         return 0
 
